@@ -81,6 +81,19 @@ def gen_loops():
     return True, ""
 
 
+def gen_cell():
+    """micro/stream.go (CarCdr) -> coq/gen/CellGen.v (a term of the statement language of CellLang.v)."""
+    os.makedirs(vc.BUILD, exist_ok=True)
+    binp = os.path.join(vc.BUILD, "gencell")
+    rc, out = vc.run(["go", "build", "-o", binp, "./cmd/gencell"], cwd=vc.HARNESS, timeout=600, env=vc.GOENV)
+    if rc != 0:
+        return False, "gencell does not build: " + out[-1500:]
+    rc, out = vc.run([binp, vc.REPO, os.path.join(vc.COQ, "gen")], cwd=vc.VERIF, timeout=120, env=vc.GOENV)
+    if rc != 0:
+        return False, "gencell: " + out[-1500:]
+    return True, ""
+
+
 def gen_mini():
     """mini/disj.go, conj.go, conde.go -> coq/gen/MiniGen.v (the mini dialect of genmicro: combinators as functions from goal lists to goal terms)."""
     os.makedirs(vc.BUILD, exist_ok=True)
